@@ -234,9 +234,56 @@ func runC09(r *Run) {
 		})
 		r.Check(okOV, "R2", fnID(fn)+"#keeps-vested", P.Pos(fnPos(fn)), "OriginalVesting := GetVestedCoins(clawbackTime)", "after a clawback the account's OriginalVesting is not the amount vested at the clawback time (vested coins would be lost or unvested kept)")
 		r.Check(okRet, "R2", fnID(fn)+"#returns-unvested", P.Pos(fnPos(fn)), "returns GetVestingCoins(clawbackTime)", "ComputeClawback does not return exactly the unvested amount at the clawback time")
+		// the account that is left is rebuilt on every path: lockup capped to the vested total, vesting truncated
+		okLP, nLP, okVP, nVP := true, 0, true, 0
+		eachInstr(fn, func(in ssa.Instruction) {
+			st, ok := in.(*ssa.Store)
+			if !ok {
+				return
+			}
+			sn, f, ok := fieldOfAddr(st.Addr)
+			if !ok || sn != "ClawbackVestingAccount" {
+				return
+			}
+			switch f {
+			case "LockupPeriods":
+				nLP++
+				e, isE := stripValue(st.Val).(*ssa.Extract)
+				var c *ssa.Call
+				if isE {
+					c, _ = e.Tuple.(*ssa.Call)
+				}
+				if c == nil || callInfo(c).Name != "ConjunctPeriods" || e.Index != 2 {
+					okLP = false
+					return
+				}
+				a := c.Call.Args
+				if len(a) != 4 || !backSlice(a[2]).HasField("ClawbackVestingAccount", "LockupPeriods") || !backSlice(a[3]).HasCall(func(g CallInfo) bool { return g.Name == "GetVestedCoins" }) {
+					okLP = false
+				}
+			case "VestingPeriods":
+				nVP++
+				sl := backSlice(st.Val)
+				if !(sl.HasField("ClawbackVestingAccount", "VestingPeriods") && sl.HasCall(func(g CallInfo) bool { return g.Name == "GetPassedPeriodCount" })) {
+					okVP = false
+				}
+			}
+		})
+		r.Check(okLP && nLP == 1, "R2", fnID(fn)+"#lockup-capped", P.Pos(fnPos(fn)), "LockupPeriods := ConjunctPeriods(lockup, one period of the vested total) unconditionally", "after a clawback the lockup schedule is not (on every path) the pointwise minimum of the old lockup schedule and the vested total: the kept lockup periods can sum to more than the new OriginalVesting (an invalid account that releases the clawed-back amount again after a later merge)")
+		r.Check(okVP && nVP == 1, "R2", fnID(fn)+"#vesting-truncated", P.Pos(fnPos(fn)), "VestingPeriods := the periods passed at the clawback time", "after a clawback the vesting periods are not the already-passed prefix of the old ones")
+		// exactly one way out: the rebuilt account
+		nRet := 0
+		eachInstr(fn, func(in ssa.Instruction) {
+			if _, ok := in.(*ssa.Return); ok {
+				nRet++
+			}
+		})
+		r.Check(nRet == 1, "R2", fnID(fn)+"#single-exit", P.Pos(fnPos(fn)), "one return (no early exit that skips part of the rebuild)", fmt.Sprintf("ComputeClawback has %d returns: an early exit can skip part of the account rebuild", nRet))
 	} else {
 		r.Bad("R2", "anchor/ComputeClawback", "", "not found")
 	}
+	r.Rule("R6", "FLOW.endtime (same rule code as C08 R6): every store to a vesting account's EndTime depends on both the lockup and the vesting schedule — ReadSchedule returns the full amount from EndTime on, so an end taken from one schedule ends the other's lock early (the account is no longer valid)")
+	checkEndTimeStores(r, "R6")
 	// R4
 	r.Rule("R4", "TABLE.boundary-convention: in ReadSchedule and ReadPastPeriodCount every comparison between a running period end (a value derived from Period.Length) and the readTime parameter counts a period whose end equals readTime as ended ('the sum of all periods ended by t'); both functions return early with the empty result for readTime <= startTime and with the total for readTime >= endTime")
 	for _, name := range []string{"ReadSchedule", "ReadPastPeriodCount"} {
